@@ -15,6 +15,7 @@ P == INSTANCE Prop_C16
 
 CONSTANTS Callers, MaxGen, MaxCalls, MaxKill,
           CloseDropped,      \* TRUE: clientDo closes the client it drops
+          ClosedCheckLocked, \* TRUE: the permanent-close flag is read under the mutex (FALSE: read before taking it, not re-read)
           CheckClosedFlag,   \* TRUE: clientDo refuses after Close()
           ReconnectWhenNil,  \* FALSE (mutant): a dropped client is never replaced - calls keep failing
           LimitIsRecoverable,\* TRUE: a stream-limit error does not drop the client
@@ -46,12 +47,19 @@ Reconnect ==
 
 Start(g) == /\ pc[g].st = "idle" /\ ncalls < MaxCalls
             /\ ncalls' = ncalls + 1
-            /\ pc' = [pc EXCEPT ![g] = [st |-> "d1", cl |-> 0]]
+            /\ pc' = [pc EXCEPT ![g] = [st |-> IF ClosedCheckLocked THEN "d1" ELSE "d0", cl |-> 0]]
             /\ Feed(<< E("Call") @@ [g |-> g] >>) /\ H([op |-> "call", g |-> g])
             /\ UNCHANGED <<client, gens, socks, count, closed, nkill, cfgFail, srvDown>>
 
+\* mutant only: the closed flag is read without the lock; a caller that passed the test then waits for the mutex
+D0(g) == /\ pc[g].st = "d0"
+         /\ IF closed
+            THEN pc' = [pc EXCEPT ![g] = [st |-> "idle", cl |-> 0]] /\ Feed(<< E("Ret") @@ [g |-> g, kind |-> "closed"] >>)
+            ELSE pc' = [pc EXCEPT ![g] = [st |-> "d1", cl |-> 0]] /\ UNCHANGED mon
+         /\ UNCHANGED <<client, gens, socks, count, closed, ncalls, nkill, cfgFail, srvDown, hist>>
+
 D1(g) == /\ pc[g].st = "d1"
-         /\ IF closed /\ CheckClosedFlag
+         /\ IF closed /\ CheckClosedFlag /\ ClosedCheckLocked
             THEN /\ pc' = [pc EXCEPT ![g] = [st |-> "idle", cl |-> 0]]
                  /\ Feed(<< E("Ret") @@ [g |-> g, kind |-> "closed"] >>)
                  /\ UNCHANGED <<client, gens, socks, count>>
@@ -116,7 +124,7 @@ Init == /\ client = 0 /\ gens = <<>> /\ socks = {} /\ count = 0 /\ closed = FALS
         /\ pc = [g \in Callers |-> [st |-> "idle", cl |-> 0]] /\ ncalls = 0 /\ nkill = 0
         /\ cfgFail = FALSE /\ srvDown = FALSE /\ mon = P!MonInit /\ hist = <<>>
 
-Next == \/ \E g \in Callers : Start(g) \/ D1(g) \/ D3(g) \/ \E l \in BOOLEAN : D2(g, l)
+Next == \/ \E g \in Callers : Start(g) \/ D0(g) \/ D1(g) \/ D3(g) \/ \E l \in BOOLEAN : D2(g, l)
         \/ Close \/ Kill \/ Observe
         \/ (Quiescent /\ \E w \in {"cfg", "srv"} : Toggle(w))
 
